@@ -89,6 +89,14 @@ func New(config *config.Config) (*Server, error) {
 		realIP:  realIP,
 		tokens:  make(map[string]token.Token),
 	}
+	// a key that names a token the configuration does not define is a
+	// configuration error: refuse it before any token is opened, not after the
+	// tokens that happened to come first have been
+	for _, name := range config.ListServedTokens() {
+		if _, err := config.GetToken(name); err != nil {
+			return nil, err
+		}
+	}
 	if err := s.openTokens(); err != nil {
 		for _, t := range s.tokens {
 			t.Close()
